@@ -493,6 +493,32 @@ func RunC05(c *Ctx) {
 	quotedPKWWorkload(c, func(entry, input, word string) {
 		CheckC05(c, "qpkw:"+entry, input)
 	})
+	// same sub-workload: every word of every corpus file and of every sentence of the systematic set back-quoted in place
+	{
+		idx := 0
+		for _, cc := range c.Corpus() {
+			if c.Mine(idx) {
+				ents := cc.Entries()
+				gen.QuoteWordEdits(cc.Text, func(m string) {
+					CheckC05(c, "qpkw:"+ents[0], m)
+					c.Count("quoted_word_edits", 1)
+				})
+			}
+			idx++
+		}
+		set, _, _ := gen.SystematicSet()
+		rr := gen.NewRand(1, 77)
+		for _, s := range set {
+			if c.Mine(idx) {
+				gen.QuoteWordEdits(gen.Render(rr, s, gen.RenderOpts{}), func(m string) {
+					CheckC05(c, "qpkw:"+s.Entry, m)
+					c.Count("quoted_word_edits", 1)
+				})
+			}
+			idx++
+		}
+	}
+	operandMatrix(c, func(entry, input string) { CheckC05(c, entry, input) })
 	treeWorkload(c, c.Pick(150_000, 3_000_000), c.Pick(40_000, 800_000), func(entry, input string) {
 		p := CheckC05(c, entry, input)
 		if p.OK() {
@@ -861,4 +887,24 @@ func sortedKeys(m map[string]bool) []string {
 	}
 	sort.Strings(l)
 	return l
+}
+
+// operandMatrix: every primary-expression form under every complete operator context, with field names of every kind
+// after the dot (plain, back-quoted reserved word, back-quoted pseudo-keyword, name that needs quoting, bare reserved
+// word - accepted only where the lexer is in dot-identifier mode). Judged only where accepted.
+func operandMatrix(c *Ctx, f func(entry, input string)) {
+	ctxts := []string{"%s + 1", "1 + %s", "- %s", "NOT %s", "%s IS NULL", "%s IN (1)", "%s BETWEEN 1 AND 2", "%s LIKE 'a'", "%s || %s", "~%s", "%s[0]", "%s[OFFSET(%s)]", "(%s).x", "%s = %s", "f(%s)", "[%s]", "(%s, 1)", "CASE %s WHEN 1 THEN %s END",
+		"%s.f", "%s.`select`", "%s.`FROM`.g", "%s.`offset`", "%s.`a b`", "%s.select", "%s.f.`from`[0]", "%s . f", "%s.*", "%s.`select`.*"}
+	idx := 0
+	for _, a := range exprAtoms {
+		for _, ctxt := range ctxts {
+			if c.Mine(idx) {
+				s := strings.ReplaceAll(ctxt, "%s", a)
+				f("expr", s)
+				f("statement", "SELECT "+s+" FROM t")
+				c.Count("operand_matrix_inputs", 2)
+			}
+			idx++
+		}
+	}
 }
